@@ -4,7 +4,7 @@
    fills them from the range tables the harness dumps from Rust's own char methods. *)
 Require Extraction.
 Require Import ExtrOcamlBasic.
-Require Import Base Overlap Tables_lexer Lexer Condense TitleCase C18Str C18LexStable C18LexDots.
+Require Import Base Overlap Tables_lexer Lexer Condense TitleCase C18Str C18LexStable C18LexDots C18LexAlnum.
 Extraction Language OCaml.
 Extraction "../ocaml/gen/c18_model.ml" run_title_case run_missing_keys
-  mkuni run_title_case_str run_document_tokens run_str_missing_keys plain_text dotted_text.
+  mkuni run_title_case_str run_document_tokens run_str_missing_keys plain_text dotted_text alnum_text.
